@@ -9,6 +9,7 @@ terminator, reported length and re-encoding for ALL field values of that shape."
 from __future__ import annotations
 
 import ast
+import os
 import pathlib
 import re
 
@@ -60,6 +61,33 @@ def install(I, repo, concrete=False):
         return  # constant evaluation of captures runs the real checksum loop
     hci = repo.cls(f"{PMOD}.hrnp", "HRNP")
     vc = repo.find_method(hci, "verify_checksum")
+    host, sum_stmt, data_name = hrnp_sum_host(repo)
+    if host is not vc:
+        # the summation lives in a helper that receives the covered octets: the HELPER is the uninterpreted function of exactly
+        # those octets (its carry handling is decided separately by checksum/no-carry-dropped); verify_checksum itself is interpreted
+        hp = [x.arg for x in host.node.args.posonlyargs + host.node.args.args]
+        if data_name not in hp or sum_stmt not in host.node.body:
+            raise AnalysisError(f"{host.qualname}: summation helper of an unexpected form (data {data_name!r} is not a parameter / the summation is nested)")
+
+        def helper(I_, fi, args, kw, bc):
+            from sa.bitabs import Frame
+            env = dict(zip(hp, args))
+            env.update(kw)
+            fr = Frame(I_, fi, env, bc)
+            fr.exec_block(host.node.body[:host.node.body.index(sum_stmt)])   # padding of odd lengths etc.
+            cd = fr.env.get(data_name)
+            if isinstance(cd, (bytes, bytearray)):
+                cd = ABits([F(0, (x >> (7 - k)) & 1) for x in cd for k in range(8)], "bytes")
+            if not isinstance(cd, ABits):
+                return NotImplemented
+            I_.st.__dict__.setdefault("hrnp_checked", []).append(cd)
+            calc = fn_int(fr, "hrnp-ones-complement", [ABits(I_.simp_bits(cd.items), "seq")], 16)
+            I_.st.__dict__.setdefault("hrnp_calc", []).append(calc)
+            return calc
+
+        I.summaries[host.qualname] = helper
+        I.fn_compare_structural = True   # `computed == received` stays a condition, as in the in-line form below
+        return
 
     def verify(I_, fi, args, kw, bc):
         from sa.bitabs import Frame
@@ -78,6 +106,7 @@ def install(I, repo, concrete=False):
             cd = ABits([F(0, (x >> (7 - k)) & 1) for x in cd for k in range(8)], "bytes")
         I_.st.__dict__.setdefault("hrnp_checked", []).append(cd)
         calc = fn_int(fr, "hrnp-ones-complement", [ABits(I_.simp_bits(cd.items), "seq")], 16)
+        I_.st.__dict__.setdefault("hrnp_calc", []).append(calc)
         g = given
         if isinstance(g, (bytes, bytearray)):
             g = int.from_bytes(g, "big")
@@ -390,6 +419,7 @@ def analyse_shape(ctx, repo, raw, dname, fb, fam_count, variant, concrete=()):
             wire = ABits([F(0, (x >> (7 - k)) & 1) for x in wire for k in range(8)], "bytes")
         ln = I.call(repo.find_method(o.cls, "__len__"), [o], {}) if repo.find_method(o.cls, "__len__") is not None else None
         st.__dict__["hrnp_checked_w"] = list(st.__dict__.get("hrnp_checked", []))
+        st.__dict__["hrnp_calc_w"] = list(st.__dict__.get("hrnp_calc", []))
         o2 = I.call(fb, [ABits(list(wire.items), "bytes")], {})
         wire2 = I.call(repo.find_method(o2.cls, "as_bytes"), [o2], {}) if isinstance(o2, AObj) else None
         if isinstance(wire2, (bytes, bytearray)):
@@ -472,6 +502,12 @@ def analyse_shape(ctx, repo, raw, dname, fb, fam_count, variant, concrete=()):
         ctx.ob("shape/roundtrip-fields", key, not bad, f"{n_fields} symbolic fields; " + ("; ".join(bad[:3]) or "all restored"), fb.loc)
         same = isinstance(wire2, ABits) and I.simp_bits(wire2.items) == I.simp_bits(wire.items)
         diff = sorted({i // 8 for i, (a, b) in enumerate(zip(I.simp_bits(wire2.items), I.simp_bits(wire.items))) if a != b}) if isinstance(wire2, ABits) else []
+        if not same and os.environ.get("C12_DEBUG"):
+            for i in diff[:1]:
+                for j in range(8 * i, 8 * i + 2):
+                    for w_ in (wire, wire2):
+                        b = I.simp(w_.items[j])
+                        print("DEBUG", key, j, [I.atoms.names[a] for a in b.atoms()][:2])
         ctx.ob("shape/reencode", key, same, f"{len(wire.items) // 8} octets; " + (f"octets that differ after re-encoding: {diff[:10]} (lengths {len(wire2.items) // 8 if isinstance(wire2, ABits) else '?'}/{len(wire.items) // 8})" if not same else "identical"), fb.loc)
         frame_rules(ctx, repo, I, st, key, o, wire, ln, dname, hdap_ci)
         if len(ctx.samples) < 5:
@@ -586,7 +622,10 @@ def frame_rules(ctx, repo, I, st, key, o, wire, ln, dname, hdap_ci):
             if cd[:len(want)] != want or any(not (isinstance(b, F) and b.is_const and b.c == 0) for b in cd[len(want):]):
                 bad.append("the checksum is not fed with exactly the frame minus the checksum field")
             csf = I.simp_bits(items[80:96])
-            if not all(isinstance(b, F) and len(b.atoms()) == 1 and isinstance(I.atoms.names[b.atoms()[0]], tuple) and I.atoms.names[b.atoms()[0]][0] == "fn" for b in csf):
+            calcs = st.__dict__.get("hrnp_calc_w", [])
+            # the field must carry the value computed over that input (compared as forms: a path on which the received checksum
+            # matched has LEARNT the value of the uninterpreted function, so "is an fn atom" would be the wrong test)
+            if not calcs or csf != I.simp_bits(calcs[-1].msb_first(16)):
                 bad.append("the checksum field is not the computed value")
         ctx.ob("frame/hrnp", key, not bad, "; ".join(bad[:3]) or f"length field = {nbytes}, checksum over everything but the checksum field", "")
     if dname == "HSTRP":
@@ -620,11 +659,45 @@ def text_rules(ctx, repo):
     ctx.saw_func(rd)
     # reader slice widths per constructor keyword
     widths = {}
+
+    def const(e):
+        try:
+            return repo.fold_expr(e, rd.module, gci)
+        except Exception:
+            return None
+
+    def slice_width(s):
+        """width of data[a:b] / data[<constant slice object>] with bounds that fold to constants"""
+        if not isinstance(s, ast.Subscript):
+            return None
+        if isinstance(s.slice, ast.Slice):
+            lo = 0 if s.slice.lower is None else const(s.slice.lower)
+            hi = const(s.slice.upper) if s.slice.upper is not None else None
+        else:
+            so = const(s.slice)
+            if not isinstance(so, slice) or so.step not in (None, 1):
+                return None
+            lo, hi = so.start or 0, so.stop
+        if isinstance(lo, int) and isinstance(hi, int) and not isinstance(lo, bool) and 0 <= lo <= hi:
+            return hi - lo
+        return None
+    # locals of the reader that are bound once to a slice of the data
+    local_w = {}
+    for n in ast.walk(rd.node):
+        if isinstance(n, (ast.Assign, ast.AnnAssign)) and n.value is not None:
+            t = n.targets[0] if isinstance(n, ast.Assign) else n.target
+            if isinstance(t, ast.Name):
+                ws = [w for w in (slice_width(x) for x in ast.walk(n.value)) if w is not None]
+                if len(ws) == 1:
+                    local_w[t.id] = ws[0] if t.id not in local_w else None
     for n in ast.walk(rd.node):
         if isinstance(n, ast.keyword) and n.arg:
             for s in ast.walk(n.value):
-                if isinstance(s, ast.Subscript) and isinstance(s.slice, ast.Slice) and isinstance(s.slice.lower, ast.Constant) and isinstance(s.slice.upper, ast.Constant):
-                    widths[n.arg] = s.slice.upper.value - s.slice.lower.value
+                w = slice_width(s)
+                if w is None and isinstance(s, ast.Name) and local_w.get(s.id) is not None:
+                    w = local_w[s.id]
+                if w is not None:
+                    widths[n.arg] = w
     # declared type of each attribute
     types = {}
     for n in ast.walk(init.node):
@@ -656,6 +729,33 @@ def text_rules(ctx, repo):
         raise AnalysisError(f"{wr.qualname}: only {found} formatted text fields matched to reader slices")
 
 
+def hrnp_sum_host(repo):
+    """(function holding the additive checksum summation, the summation statement, name of the octet buffer it sums): HRNP's
+    verify_checksum itself or a helper of the class that it calls, directly or through one more helper"""
+    from sa.intervals import CarryAnalysis
+    hr = repo.cls("hytera.pdu.hrnp", "HRNP")
+    fi = repo.find_method(hr, "verify_checksum")
+    cands, seen_q = [fi], {fi.qualname}
+    for h in cands:
+        for n in ast.walk(h.node):
+            if isinstance(n, ast.Call) and isinstance(n.func, ast.Attribute) and isinstance(n.func.value, ast.Name) and n.func.value.id in ("self", "cls", hr.name):
+                m = repo.find_method(hr, n.func.attr)
+                if m is not None and m.qualname not in seen_q and len(cands) < 12:
+                    seen_q.add(m.qualname)
+                    cands.append(m)
+    first_err = None
+    for cand in cands:
+        try:
+            stmt = CarryAnalysis(cand, 32768).find_sum_loop()
+        except AnalysisError as e:
+            first_err = first_err or e
+            continue
+        words = stmt.body if isinstance(stmt, ast.For) else [stmt.value.args[0].elt]
+        name = next((x.value.id for w in words for x in ast.walk(w) if isinstance(x, ast.Subscript) and isinstance(x.value, ast.Name)), None)
+        return cand, stmt, name
+    raise first_err
+
+
 def checksum_carry_rule(ctx, repo):
     """the part of the HRNP checksum that the shape analysis treats as an uninterpreted function: its carry handling, decided
     by an interval analysis (sa/intervals.py) for every packet length the 16-bit length field admits"""
@@ -674,6 +774,8 @@ def checksum_carry_rule(ctx, repo):
                 two.append(n)
     if not two:
         raise AnalysisError("HRNP: the 2-octet length field (bound of the packet size) not found")
+    fi, _stmt, _name = hrnp_sum_host(repo)
+    ctx.saw_func(fi)
     a = CarryAnalysis(fi, 32768, fold=lambda e: repo.fold_expr(e, fi.module, hr)).run()
     bad = [ev for ev in a.events if not ev[3]]
     for line, expr, iv, ok, why in a.events:
